@@ -14,6 +14,7 @@ import sys
 
 def main():
     modname, result, runs = sys.argv[1], sys.argv[2], int(sys.argv[3])
+    modname, _, decoder = modname.partition(':')
     rest = sys.argv[4:]
     try:
         import atheris
@@ -39,8 +40,10 @@ def main():
             pickle.dump(stats.dump(), f)
         os.replace(tmp, result)
 
+    decode = fuzz.DECODERS[decoder or 'make'][0]
+
     def one(data):
-        case = fuzz.decode_make_case(data)
+        case = decode(data)
         try:
             out = runner.evaluate(mod, case)
         except runner.HarnessError as ex:
